@@ -1043,7 +1043,33 @@ class C05(Oracle):
         out += self._one(c, c['which'], s2, area, lambda: f(s2, rng=np.random.default_rng(c['seed'])), tag=' (function obtained by name, second equal state)')
         if enc_state(s) != c['state']:
             out.append(V('observation/modifies-state', f'{c}'))
+        if not out and c['which'] != 'stochastic_raytracing' and area.width % 2 == 1:
+            out += self._through_env(c, area)
         return out
+
+    def _through_env(self, c, area):
+        """the functional observation of an environment, asked about the environment's own current state
+        object after that object has been read and then changed in place (a user may drive the in-place
+        transition functions on `env.state`): it is the observation of the state as it is now"""
+        from gym_gridverse.envs import transition_functions as trf
+
+        rr = random.Random(c['seed'])
+        try:
+            env = custom_env({'state': c['state'], 'area': c['area'], 'obs': c['which'], 'trans': ['move_agent', 'turn_agent']})
+        except Exception:
+            return []
+        env.set_seed(c['seed'])
+        try:
+            env.reset()
+            _ = env.observation
+        except Exception:
+            return []
+        s = env.state
+        for _ in range(rr.randint(1, 3)):
+            a = rr.choice(ACTIONS[:6])
+            trf.move_agent(s, a)
+            trf.turn_agent(s, a)
+        return self._one(c, c['which'], s, area, lambda: env.functional_observation(s), tag=' (functional_observation of the environment on its current state object, changed in place after a read)')
 
     @staticmethod
     def _one(c, which, s, area, call, tag=''):
